@@ -11,7 +11,7 @@ RULE = ("Generated programs (the C02 generator: all instruction forms, data dire
         "optionally padded by an RMB/FCB block to sizes 300 / 3000 / 9000 or to an exact image length on a tape-block, "
         "sector or granule edge (254..257, 509..511, 2290..2309, 4596..4611, 6902..6912), or to 20-64 KB by a table of "
         "distinct words (enumerated at 22-28 granules); enumerated programs that begin with data and restate the current "
-        "location with a second ORG before the first instruction (the load address stays the first ORG); with or "
+        "location with a second ORG before the first instruction (the load address stays the first ORG), and programs whose last byte is at $FFFF with NAM and END after it; with or "
         "without NAM (1-12 letters/digits in either case), with or without --name, with END / END label / no END, "
         "are assembled by a real assembler.py process with each non-empty subset of {--to_bin, --to_cas, --to_dsk}. "
         "Oracle: reference image = in-process Program on the same lines; .bin == image byte for byte; the independent "
@@ -24,7 +24,7 @@ ASSUMPTIONS = [
     "the in-process assembly of the same lines is the reference image (its correctness is C01-C05's subject)",
     "vlib/casref.py and vlib/dskref.py read the outputs",
 ]
-HEALTH = {"nam": 0.12, "cli_name_only": 0.06, "no_name": 0.02, "multi_switch": 0.12, "edge_length": 0.06, "org_restated_after_data": 20}
+HEALTH = {"nam": 0.12, "cli_name_only": 0.06, "no_name": 0.02, "multi_switch": 0.12, "edge_length": 0.06, "org_restated_after_data": 20, "ends_at_top_of_memory": 20}
 EXHAUSTIVE = {"quick": ["images of 50600..64000 bytes (22-28 granules) x {--to_dsk, all three switches}"], "thorough": ["as quick"]}
 
 # image lengths on the container formats' edges: tape block (255), disk sector (256) and granule (2304) with the
@@ -47,6 +47,13 @@ def enumerated(tier, seed):
     for bulk in (50600, 50670, 50680, 52480, 57000, 64000):
         for sw in (["dsk"], ["bin", "cas", "dsk"]):
             yield dict(prog=tiny, nam="BIGPROG", cli_name=None, nam_pos=0, bulk=bulk, target_len=None, switches=sw, end="plain")
+    # a program whose last byte is at $FFFF and whose NAM (and END) come after it: the name is still the NAM operand
+    for org, bulk in ((0xFFFE, 0), (0xFF00, 253), (0xC000, 16381)):
+        top = {"org": org, "stmts": [{"lab": "", "k": "org", "addr": org}, {"lab": "L0", "k": "imm8", "mn": "LDA", "val": proggen.lit(1)}]}
+        for sw in (["cas"], ["dsk"], ["bin", "cas", "dsk"]):
+            for end in ("none", "plain", "label"):
+                for cli_name in (None, "OTHER"):
+                    yield dict(prog=top, nam="TopMem", cli_name=cli_name, nam_pos=99, bulk=bulk, target_len=None, switches=sw, end=end, top=True)
     # a program that starts with data and restates the current location with an ORG before its first instruction: the
     # image still starts at the first ORG, and that is the load address
     L = proggen.lit
@@ -145,6 +152,8 @@ def execute(case):
         labels.append("no_name")
     if len(case["switches"]) > 1:
         labels.append("multi_switch")
+    if case.get("top"):
+        labels.append("ends_at_top_of_memory")
     if case.get("org_here"):
         labels.append("org_restated_after_data")
     if len(image) in EDGE_LENGTHS:
